@@ -18,15 +18,26 @@ def build_cases(rng, tier):
         be = r.weighted([('nr', 5), ('r', 2), ('c99', 2), ('cxx', 2)])
         prog = rulesets.gen_program(r, trailing=(i % 3 == 0))
         import patgen
-        for rl in prog['rules']:      # the REJECT oracle splits fixed-length trailing context only
-            if rl.get('trail') not in (None, '$') and patgen.fixed_len(rl['head']) is None and patgen.fixed_len(rl['trail']) is None:
-                rl['trail'] = None
+        if i % 6 != 0:                # every sixth case keeps variable trailing context (judged by the validator)
+            for rl in prog['rules']:
+                if rl.get('trail') not in (None, '$') and patgen.fixed_len(rl['head']) is None and patgen.fixed_len(rl['trail']) is None:
+                    rl['trail'] = None
+        elif r.chance(70):
+            # make sure a rule with variable head and variable trail is there, and that it rejects
+            a, b = r.pick([(97, 98), (48, 97), (98, 98)])
+            prog['rules'].insert(r.below(len(prog['rules']) + 1),
+                                 {'head': ('plus', ('c', a)), 'bol': False, 'scs': None, 'trail': ('star', ('c', b))})
         nr = len(prog['rules'])
         pols = {}
         for j in range(1, nr + 1):
             pols[j] = r.pick([('never',), ('always',), ('lengt', r.rng(0, 3)), ('first', r.rng(1, 3)), ('never',), ('always',)])
         if not any(p[0] != 'never' for p in pols.values()):
             pols[1] = ('always',)
+        if i % 6 == 0:
+            for j, rl in enumerate(prog['rules']):
+                if rl.get('trail') not in (None, '$') and patgen.fixed_len(rl['head']) is None and patgen.fixed_len(rl['trail']) is None \
+                        and pols[j + 1][0] == 'never':
+                    pols[j + 1] = r.pick([('always',), ('first', 2), ('lengt', 1)])
         opts = list(r.pick(OPTS))
         if be == 'cxx' and "-CF" in opts:
             opts = ["-Cf"]
@@ -85,7 +96,11 @@ def main(tier):
     ck_holder = {}
 
     def post(ck, flex, scratch, cases, results, stats):
-        return {}
+        vs = [st for r in results for st in r.get('streams', []) if st.get('variable_trailing')]
+        return {"event_streams_with_variable_trailing_context_validated": len(vs),
+                "of_which_with_a_reject_inside_such_a_rule": sum(1 for r in results if r.get('var_rules') and
+                                                                 any(st.get('variable_trailing') and len(st['real']) > 1 for st in r.get('streams', []))),
+                "scanners_with_variable_trailing_context_and_REJECT": sum(1 for r in results if r.get('var_rules'))}
 
     # standard_main's judge understands plain token cases; REJECT programs use their own judge
     orig = engine.judge
@@ -97,7 +112,8 @@ def main(tier):
             "table option x back end; the sequence of executed actions (rule, yyleng) is compared with the specification's walk through "
             "salts (proved complete and ordered) and with the walk through the emitted yy_acclist tables; "
             "non-trivial = DFA >= 3 states and >= 2 rules executed",
-            ["REJECT combined with variable-length trailing context is not generated (fixed-length context is)",
+            ["REJECT inside rules with variable trailing context: the text handed to the action may be any documented head of the match "
+             "(validator rej_validate, coq/C07VarProofs.v); rule sets for which flex prints 'dangerous trailing context' are excluded (C06)",
              "the overflow clause (token outgrowing the non-growing buffer) is exercised in C03"],
             worker=worker, post=post)
     finally:
